@@ -26,7 +26,14 @@ def menus():
     key_bad = [ABSENT, None, 5, "", "44'/0'/0'/0/0", "m/44'/0'/0'/0", "m/44'/0'/0'/0/0/0",
                "m/44'/2147483648/0'/0/0", "m/44'/-1/0'/0/0", "m/44''/0'/0'/0/0", "m/44'/0'/0'/0/x",
                "m/44'/0'/0'//0", " m/44'/0'/0'/0/0", [], {},
-               "m/44'/0'/0'/0/1", "m/044'/0'/0'/0/0", "m/44'/2147483647'/0'/0/0"]
+               "m/44'/0'/0'/0/1", "m/044'/0'/0'/0/0", "m/44'/2147483647'/0'/0/0",
+               # white space and look-alikes at every kind of position (line-oriented patterns and
+               # int() are more generous than the documented syntax)
+               "m/44'/0'/0'/0/0\n", "m/44'\n/0'/0'/0/0", "m/44\n'/0'/0'/0/0", "\nm/44'/0'/0'/0/0",
+               "m/44'/0'/0'/0/0\r\n", "m/44'/0'/0'/0/0 ", "m/44'/0'/0'/0/0\t", "m/44'/0'/0'/0/ 0",
+               "m/44'/0'/0'/0/0\x00", "m/44'/0'/0'/0/+0", "m/44'/0'/0'/0/0_0", "m/44'/0'/0'/0/0x0",
+               "M/44'/0'/0'/0/0", "m/44'/0'/0'/0/0/", "m\\44'\\0'\\0'\\0\\0", "m/44\u2019/0'/0'/0/0",
+               "m/44'/0'/0'/0/0.0", "m/44'/0'/0'/0/0e0"]
     M = {
         ("command",): [ABSENT, None, 5, "", "Sign", "unknownCommand", [], {}, ["sign"], True],
         ("version",): [ABSENT, 4, 6, 0, "5", 5.0, 1.0, True, None, [], 1, 5],
